@@ -1,7 +1,11 @@
 package main
 
 import (
+	"crypto/sha256"
+	"encoding/hex"
+	"encoding/json"
 	"fmt"
+	"strings"
 	"sync"
 
 	"github.com/internetarchive/Zeno/verifsim/scen"
@@ -33,6 +37,8 @@ func doSelftest(tier string, seed uint64, workers int) int {
 	}
 	var mu sync.Mutex
 	hashes := map[string]map[string]int{}
+	plans := map[string]map[string]int{} // the planned scenario itself must be a pure function of (property, seed, index)
+	planJSON := map[string][]byte{}
 	infra := 0
 	parallel(len(jobs), workers, func(j int) {
 		jb := jobs[j]
@@ -44,7 +50,23 @@ func doSelftest(tier string, seed uint64, workers int) int {
 		in := &scen.RunInput{Property: jb.prop, Seed: c.Seed, Scenario: dirCase.Scenario, JobDir: fmt.Sprintf("%s/st-%d", workRoot, j)}
 		res := runChild(in, wallLimitFor(c.Scenario), procs[jb.r%len(procs)])
 		key := fmt.Sprintf("%s/%d", jb.prop, jb.i)
+		scJSON, _ := json.Marshal(c.Scenario)
+		scHash := sha256.Sum256(scJSON)
 		mu.Lock()
+		if plans[key] == nil {
+			plans[key] = map[string]int{}
+		}
+		plans[key][hex.EncodeToString(scHash[:8])]++
+		if prev, ok := planJSON[key]; !ok {
+			planJSON[key] = scJSON
+		} else if string(prev) != string(scJSON) {
+			a, b := string(prev), string(scJSON)
+			i := 0
+			for i < len(a) && i < len(b) && a[i] == b[i] {
+				i++
+			}
+			fmt.Printf("PLAN-DIFF %s at byte %d:\n  A ...%s\n  B ...%s\n", key, i, a[max(0, i-200):min(len(a), i+200)], b[max(0, i-200):min(len(b), i+200)])
+		}
 		if hashes[key] == nil {
 			hashes[key] = map[string]int{}
 		}
@@ -57,6 +79,12 @@ func doSelftest(tier string, seed uint64, workers int) int {
 		mu.Unlock()
 	})
 	bad := 0
+	for key, m := range plans {
+		if len(m) > 1 {
+			bad++
+			fmt.Printf("PLAN-DIVERGENCE %s: %v\n", key, m)
+		}
+	}
 	for key, m := range hashes {
 		if len(m) > 1 {
 			bad++
@@ -75,16 +103,28 @@ func doSelfDiff(prop string, idx int, seed uint64) int {
 	p := props[prop]
 	cases := p.plan("quick", seed, idx+1)
 	c := cases[idx]
-	var logs [][]*scen.Event
-	for r, procs := range []int{1, 4, 16, 2, 8, 16, 1, 4, 16, 3, 16, 1} {
+	procList := []int{1, 4, 16, 2, 8, 16, 1, 4, 16, 3, 16, 1}
+	n := 3 * len(procList)
+	all := make([][]*scen.Event, n)
+	var mu sync.Mutex
+	parallel(n, 16, func(r int) {
+		procs := procList[r%len(procList)]
 		in := &scen.RunInput{Property: prop, Seed: c.Seed, Scenario: c.Scenario, JobDir: fmt.Sprintf("%s/sd-%d", workRoot, r), KeepLog: true}
 		res := runChild(in, wallLimitFor(c.Scenario), procs)
+		mu.Lock()
+		defer mu.Unlock()
 		if res.rec == nil {
 			fmt.Println("no record", res.exit)
-			continue
+			return
 		}
 		fmt.Println("run", r, "GOMAXPROCS", procs, res.rec.Hash[:16], res.rec.EndReason, len(res.rec.Log))
-		logs = append(logs, res.rec.Log)
+		all[r] = res.rec.Log
+	})
+	var logs [][]*scen.Event
+	for _, l := range all {
+		if l != nil {
+			logs = append(logs, l)
+		}
 	}
 	for r := 1; r < len(logs); r++ {
 		a, b := logs[0], logs[r]
@@ -96,6 +136,33 @@ func doSelfDiff(prop string, idx int, seed uint64) int {
 					fmt.Printf("  A %d %dms %s %s %v\n  B %d %dms %s %s %v\n", a[j].Step, a[j].T/1000000, a[j].Actor, a[j].Point, a[j].Args, b[j].Step, b[j].T/1000000, b[j].Actor, b[j].Point, b[j].Args)
 				}
 				break
+			}
+		}
+	}
+	return 0
+}
+
+// doPlanDiff plans one case several times and prints the first differing lines of the scenario JSON.
+func doPlanDiff(prop string, idx int, seed uint64) int {
+	p := props[prop]
+	var first []byte
+	for r := 0; r < 8; r++ {
+		cases := p.plan("quick", seed, idx+1)
+		b, _ := json.MarshalIndent(cases[idx].Scenario, "", " ")
+		if first == nil {
+			first = b
+			continue
+		}
+		if string(b) == string(first) {
+			fmt.Println("plan", r, "identical")
+			continue
+		}
+		la, lb := strings.Split(string(first), "\n"), strings.Split(string(b), "\n")
+		shown := 0
+		for i := 0; i < len(la) && i < len(lb) && shown < 6; i++ {
+			if la[i] != lb[i] {
+				fmt.Printf("plan %d line %d:\n  A %s\n  B %s\n", r, i, la[i], lb[i])
+				shown++
 			}
 		}
 	}
